@@ -48,6 +48,10 @@ package replication
 //@ assumepre executor.GetTimeFromTicks.start "epoch seconds of a real interval start"
 //@ forget executor.GetTimeFromTicks.decodeLo executor.GetTimeFromTicks.decodeHi io.Serialize.head8 io.Serialize.head16
 //@ requires #recLen: wtSet.VarRecLen >= 4
-//@ loop 0 invariant #idx: 0 <= i && 0 <= cursor
+//@ loop 0 invariant #idx: 0 <= i && 0 <= cursor && i <= numRows && buf != nil
+// every row of the write set is serialized: row i starts at i*(record length + 8) and the loop ends after the last row
+//@ loop 0 invariant #cursor: cursor == i*(varRecLen + 8) && varRecLen == wtSet.VarRecLen && numRows == len(payload)/varRecLen
+//@ exit #allRows: result1 == nil ==> i == len(payload)/varRecLen
+//@ exit #errorOrData: result1 == nil ==> result0 != nil
 //@ loop 0 step #epochIsDecodedSecond: le64(buf, prev(cursor)) == second
 //@ loop 0 step #nanosAreDecoded: le32(buf, cursor - 4) == nanosecond
